@@ -109,13 +109,13 @@ theorem view_unlock (s s' : St n) (t : Fin n) (th' : Thread) (o' o : Obj) (h1 : 
 
 /-- except for a successful write and the end of a delivery loop, a step changes no object's view -/
 theorem view_frame (s s' : St n) (t : Fin n) (b : Bool) (h : next0 s t b = some s') (hl : LInv s) :
-    (∀ o, view s' o = view s o) ∨ (∃ o sent c todo, (s.thr t).pc = .p4 o sent (c :: todo)) ∨
+    (∀ o, view s' o = view s o) ∨ (∃ o sent c todo, (s.thr t).pc = .p4 o sent (c :: todo) ∧ b = false) ∨
     (∃ o sent, (s.thr t).pc = .p4 o sent []) := by
   have hown := hl.ow t
   have hk := hl.kind t
   step_cases h
   all_goals (first
-    | (right; left; exact ⟨_, _, _, _, by assumption⟩)
+    | (right; left; refine ⟨_, _, _, _, by assumption, ?_⟩; simp_all; done)
     | (right; right; exact ⟨_, _, by assumption⟩)
     | left)
   all_goals intro o
@@ -262,5 +262,211 @@ theorem loginv_quiet (s s' : St n) (t : Fin n) (b : Bool) (h : next0 s t b = som
     exact absurd hpc (hne _ _)
   · rename_i _ o' hpc _
     rw [hpc] at hk; simp at hk
+
+theorem view_other (s s' : St n) (t : Fin n) (o o' : Obj) (hne : o' ≠ o) (hthr : ∀ u, u ≠ t → s'.thr u = s.thr u)
+    (how : s'.ow o' = s.ow o') (hown : ∀ o2, s.ow o2 = some t → o2 = o) : view s' o' = view s o' := by
+  apply view_congr s s' o' how
+  intro u hu
+  have : u ≠ t := by
+    intro e; subst e
+    exact hne (hown o' hu)
+  rw [hthr u this]
+
+theorem chLog_upd (s : St n) (c0 : Conn) (ch0 : Chan) (m : Payload) (lg : Conn → List (Chan × Payload))
+    (h : lg = upd s.log c0 (s.log c0 ++ [(ch0, m)])) (c : Conn) (ch : Chan) :
+    ((lg c).filter (fun p => p.1 = ch)).map (·.2) = chLog s c ch ++ (if c = c0 ∧ ch = ch0 then [m] else []) := by
+  subst h
+  unfold chLog
+  by_cases e : c = c0
+  · subst e
+    by_cases e2 : ch = ch0
+    · subst e2; simp [upd, List.filter_append]
+    · have : ¬ ch0 = ch := fun x => e2 x.symm
+      simp [upd, List.filter_append, e2, this]
+  · simp [upd, e]
+
+/-- the object of a live delivery loop is the table entry of its channel -/
+theorem loop_obj_in_table (s : St n) (a : AllInv s) (t : Fin n) (o : Obj) (sent : List Conn) (c0 : Conn) (todo : List Conn)
+    (hpc : (s.thr t).pc = .p4 o sent (c0 :: todo)) : s.table (s.thr t).cur.chan = some o := by
+  have hloop := a.si.loop t o sent (c0 :: todo) hpc
+  have hne : s.subs o ≠ [] := by rw [hloop]; simp
+  have h1 : s.table (s.och o) = some o := Classical.byContradiction fun hcon => hne (a.si.dropped o hcon)
+  rw [a.si.pcch t o (by rw [hpc]; rfl)] at h1
+  exact h1
+
+theorem inflight_at (s : St n) (t : Fin n) (o : Obj) (sent todo : List Conn) (hpc : (s.thr t).pc = .p4 o sent todo)
+    (hown : s.ow o = some t) (htab : s.table (s.thr t).cur.chan = some o) (c : Conn) :
+    inflight s c (s.thr t).cur.chan = if c ∈ sent then [(s.thr t).cur.payload] else [] := by
+  unfold inflight
+  rw [htab]
+  simp only [view, hown, Option.bind_some, p4view, hpc]
+  by_cases e : sent = []
+  · simp [e]
+  · simp [e]
+
+theorem inflight_other (s s' : St n) (a : AllInv s) (t : Fin n) (o : Obj) (hho : holdsO (s.thr t).pc = some o)
+    (htab : s'.table = s.table) (hthr : ∀ u, u ≠ t → s'.thr u = s.thr u)
+    (how : ∀ o', o' ≠ o → s'.ow o' = s.ow o') (c : Conn) (ch : Chan) (hne : ∀ o', s.table ch = some o' → o' ≠ o) :
+    inflight s' c ch = inflight s c ch := by
+  unfold inflight
+  rw [htab]
+  cases ht : s.table ch with
+  | none => rfl
+  | some o' =>
+    have hne' : o' ≠ o := hne o' ht
+    have hown : ∀ o2, s.ow o2 = some t → o2 = o := by
+      intro o2 h2
+      have := (a.l.ow t o2).1 h2
+      rw [hho] at this
+      exact (Option.some.inj this).symm
+    simp only [view_other s s' t o o' hne' hthr (how o' hne') hown]
+
+theorem only_channel (s : St n) (a : AllInv s) (t : Fin n) (o : Obj) (hp : pcObj (s.thr t).pc = some o) :
+    ∀ ch, s.table ch ≠ some o ∨ ch = (s.thr t).cur.chan := by
+  intro ch
+  by_cases h : s.table ch = some o
+  · right; rw [← a.si.tab ch o h, a.si.pcch t o hp]
+  · left; exact h
+
+theorem other_obj (s : St n) (a : AllInv s) (t : Fin n) (o : Obj) (hp : pcObj (s.thr t).pc = some o) (ch : Chan)
+    (hch : ch ≠ (s.thr t).cur.chan) : ∀ o', s.table ch = some o' → o' ≠ o := by
+  intro o' h e; subst e
+  rcases only_channel s a t o' hp ch with h2 | h2
+  · exact h2 h
+  · exact hch h2
+
+/-- a successful write: the message is in the connection's log, the Send is not yet linearized — `inflight` accounts for it -/
+theorem loginv_write (s : St n) (a : AllInv s) (hL : LogInv s) (t : Fin n) (o : Obj) (sent : List Conn) (c0 : Conn)
+    (todo : List Conn) (hpc : (s.thr t).pc = .p4 o sent (c0 :: todo)) :
+    LogInv { setT s t { s.thr t with pc := .p4 o (sent ++ [c0]) todo } with
+             log := upd s.log c0 (s.log c0 ++ [((s.thr t).cur.chan, (s.thr t).cur.payload)]) } := by
+  generalize hs' : ({ setT s t { s.thr t with pc := .p4 o (sent ++ [c0]) todo } with
+             log := upd s.log c0 (s.log c0 ++ [((s.thr t).cur.chan, (s.thr t).cur.payload)]) } : St n) = s'
+  have e_tab : s'.table = s.table := by rw [← hs']; rfl
+  have e_ow : s'.ow = s.ow := by rw [← hs']; rfl
+  have e_lin : s'.lin = s.lin := by rw [← hs']; rfl
+  have e_log : s'.log = upd s.log c0 (s.log c0 ++ [((s.thr t).cur.chan, (s.thr t).cur.payload)]) := by rw [← hs']
+  have e_thr : ∀ u, u ≠ t → s'.thr u = s.thr u := by intro u hu; rw [← hs']; simp [setT, upd, hu]
+  have e_pc : (s'.thr t).pc = .p4 o (sent ++ [c0]) todo := by rw [← hs']; simp [setT, upd]
+  have e_cur : (s'.thr t).cur = (s.thr t).cur := by rw [← hs']; simp [setT, upd]
+  intro c ch
+  have htab := loop_obj_in_table s a t o sent c0 todo hpc
+  have hown : s.ow o = some t := (a.l.ow t o).2 (by rw [hpc]; rfl)
+  have hloop := a.si.loop t o sent (c0 :: todo) hpc
+  have hnd := a.si.nodup o
+  rw [hloop] at hnd
+  have hnot : c0 ∉ sent := by
+    intro hc
+    rw [List.nodup_append] at hnd
+    exact hnd.2.2 c0 hc c0 (by simp) rfl
+  unfold chLog
+  rw [chLog_upd s c0 _ _ _ e_log c ch, e_lin]
+  by_cases hch : ch = (s.thr t).cur.chan
+  · subst hch
+    have h1 := inflight_at s t o sent (c0 :: todo) hpc hown htab c
+    have h2 := inflight_at s' t o (sent ++ [c0]) todo e_pc (by rw [e_ow]; exact hown) (by rw [e_tab, e_cur]; exact htab) c
+    rw [e_cur] at h2
+    rw [hL c _, h1, h2]
+    by_cases e : c = c0
+    · subst e; simp [hnot]
+    · simp [e]
+  · rw [inflight_other s s' a t o (by rw [hpc]; rfl) e_tab e_thr (fun o' _ => by rw [e_ow]) c ch
+      (other_obj s a t o (by rw [hpc]; rfl) ch hch), hL c ch]
+    simp [hch]
+
+/-- the end of a delivery loop: Unlock(obj); unless the Send was linearized by a drop, its PUBLISH is linearized now and the
+    specification delivers to exactly the connections the loop has written to -/
+theorem loginv_end (s s' : St n) (a : AllInv s) (hL : LogInv s) (t : Fin n) (o : Obj) (sent : List Conn)
+    (hpc : (s.thr t).pc = .p4 o sent []) (e_tab : s'.table = s.table) (e_log : s'.log = s.log) (e_ow : s'.ow = upd s.ow o none)
+    (e_thr : ∀ u, u ≠ t → s'.thr u = s.thr u)
+    (hlin : ((s.thr t).lpd = true ∧ s'.lin = s.lin) ∨
+            ((s.thr t).lpd = false ∧ ∃ tag, s'.lin = s.lin ++ [⟨tag, (s.thr t).cur.abs⟩])) : LogInv s' := by
+  intro c ch
+  have hk := a.l.kind t
+  rw [hpc] at hk
+  obtain ⟨ch0, m, hc⟩ := kind3 _ (by simpa using hk.1)
+  have hown : s.ow o = some t := (a.l.ow t o).2 (by rw [hpc]; rfl)
+  have hobj : pcObj (s.thr t).pc = some o := by rw [hpc]; rfl
+  have hlog : chLog s' c ch = chLog s c ch := by unfold chLog; rw [e_log]
+  have how : ∀ o', o' ≠ o → s'.ow o' = s.ow o' := by intro o' h; rw [e_ow]; simp [upd, h]
+  rw [hlog, hL c ch]
+  by_cases hch : ch = (s.thr t).cur.chan
+  · subst hch
+    rcases hlin with ⟨hlpd, el⟩ | ⟨hlpd, tag, el⟩
+    · have hst := a.p.stale t o (by rw [hpc]; rfl) hlpd
+      rw [el, inflight_other s s' a t o (by rw [hpc]; rfl) e_tab e_thr how c _ (fun o' h e => hst (e ▸ h))]
+    · have hfr := a.p.fresh t o (by rw [hpc]; rfl) hlpd
+      have h1 := inflight_at s t o sent [] hpc hown hfr c
+      have h2 : inflight s' c (s.thr t).cur.chan = [] := by
+        unfold inflight
+        rw [e_tab, hfr]
+        simp [view, e_ow, upd]
+      have hloop := a.si.loop t o sent [] hpc
+      simp only [List.append_nil] at hloop
+      have hin : ((s.thr t).cur.chan, c) ∈ (PubSub.run (absLin s.lin)).subs ↔ c ∈ sent := by
+        rw [a.r]
+        constructor
+        · rintro ⟨o2, h3, h4⟩
+          rw [hfr] at h3; cases h3
+          rw [hloop] at h4; exact h4
+        · intro h; exact ⟨o, hfr, by rw [hloop]; exact h⟩
+      rw [h1, h2, el, absLin_append, absLin_single]
+      simp only [hc, Op.abs, Op.chan, Op.payload] at hin ⊢
+      rw [chOut_snoc_pub]
+      by_cases e : c ∈ sent
+      · simp [e, hin.2 e]
+      · have : (ch0, c) ∉ (PubSub.run (absLin s.lin)).subs := fun h => e (hin.1 h)
+        simp [e, this]
+  · rw [inflight_other s s' a t o (by rw [hpc]; rfl) e_tab e_thr how c ch (other_obj s a t o hobj ch hch)]
+    rcases hlin with ⟨_, el⟩ | ⟨_, tag, el⟩
+    · rw [el]
+    · rw [el, absLin_append, absLin_single, hc]
+      simp only [Op.abs]
+      rw [chOut_snoc_pub]
+      rw [hc] at hch; simp only [Op.chan] at hch
+      simp [hch]
+
+theorem loginv_next0 (s s' : St n) (t : Fin n) (b : Bool) (h : next0 s t b = some s') (a : AllInv s) (hL : LogInv s) :
+    LogInv s' := by
+  rcases view_frame s s' t b h a.l with hv | ⟨o, sent, c0, todo, hpc, hb⟩ | ⟨o, sent, hpc⟩
+  · by_cases hw : ∃ o sent c todo, (s.thr t).pc = .p4 o sent (c :: todo) ∧ b = false
+    · obtain ⟨o, sent, c0, todo, hpc, hb⟩ := hw
+      subst hb
+      unfold next0 at h
+      simp only [hpc] at h
+      simp only [Bool.false_eq_true, if_false, Option.some.injEq] at h
+      subst h
+      exact loginv_write s a hL t o sent c0 todo hpc
+    · by_cases he : ∃ o sent, (s.thr t).pc = .p4 o sent []
+      · obtain ⟨o, sent, hpc⟩ := he
+        unfold next0 at h
+        simp only [hpc] at h
+        split at h <;> simp only [Option.some.injEq] at h <;> subst h
+        · rename_i hl
+          exact loginv_end s _ a hL t o sent hpc rfl rfl rfl (fun u hu => by simp [fin, upd, hu]) (Or.inl ⟨hl, rfl⟩)
+        · rename_i hl
+          exact loginv_end s _ a hL t o sent hpc rfl rfl rfl (fun u hu => by simp [fin, upd, hu])
+            (Or.inr ⟨by simpa using hl, _, rfl⟩)
+      · refine loginv_quiet s s' t b h a hL hv ?_ ?_
+        · intro o sent c todo hpc
+          cases hb : b
+          · exact absurd ⟨o, sent, c, todo, hpc, hb⟩ hw
+          · rfl
+        · intro o sent hpc
+          exact he ⟨o, sent, hpc⟩
+  · subst hb
+    unfold next0 at h
+    simp only [hpc] at h
+    simp only [Bool.false_eq_true, if_false, Option.some.injEq] at h
+    subst h
+    exact loginv_write s a hL t o sent c0 todo hpc
+  · unfold next0 at h
+    simp only [hpc] at h
+    split at h <;> simp only [Option.some.injEq] at h <;> subst h
+    · rename_i hl
+      exact loginv_end s _ a hL t o sent hpc rfl rfl rfl (fun u hu => by simp [fin, upd, hu]) (Or.inl ⟨hl, rfl⟩)
+    · rename_i hl
+      exact loginv_end s _ a hL t o sent hpc rfl rfl rfl (fun u hu => by simp [fin, upd, hu])
+        (Or.inr ⟨by simpa using hl, _, rfl⟩)
 
 end PSC
